@@ -52,7 +52,7 @@ type Dev struct {
 	FirstErr  int            // index in Log of the first read that returned an error, -1 if none
 	DAtErr    int            // bytes delivered up to and including that read
 	Stalls    int
-	AfterErr  int // reads served after the first error (diagnostic: retry-after-error)
+	AfterErr  int    // reads served after the first error (diagnostic: retry-after-error)
 	Hook      func() // called at the start of every Read (scheduler preemption point), may be nil
 }
 
